@@ -299,6 +299,15 @@ pub fn run_case(lines: &[String], out: &mut String) {
                                         let t: Vec<&str> = pk.split_whitespace().collect();
                                         let key = req.headers().get("Sec-WebSocket-Key").map(|k| k.as_bytes().to_vec()).unwrap_or_default();
                                         let mut acc = accept_for(&key).into_bytes();
+                                        if let Some(m) = parse_kv(pk, "mutcase") {
+                                            // the accept value with the ASCII case of one letter flipped
+                                            // (first letter at or after position i, cyclically)
+                                            let i: usize = m.parse().unwrap();
+                                            let n = acc.len();
+                                            if let Some(j) = (0..n).map(|d| (i + d) % n).find(|&j| acc[j].is_ascii_alphabetic()) {
+                                                acc[j] ^= 0x20;
+                                            }
+                                        }
                                         if let Some(m) = parse_kv(pk, "mut") {
                                             let i: usize = m.parse().unwrap();
                                             if i < acc.len() {
